@@ -56,6 +56,24 @@ _add(_c("lsn_orth_g2", "LSN", [2, 2], [3, 4, 3], 2, "lsn", dict(orthogonal=True)
 _add(_c("lsn_orth_extrap", "LSN", [2, 2], [3, 4, 3], 1, "lsn", dict(orthogonal=True, extrapolate_profiles=True, psi_sol=0.7074, psi_sol_inner=0.7074),
         fpol="quad", pressure="quad", psi1d_rmax=1.67))
 
+# ---- pairs for C16 (mirror images and field reversals) -----------------------------------
+_add(_c("m_lsn", "LSN", [2, 3], [3, 4, 5], 1, "lsn", dict(orthogonal=True), fpol="quad", wall="slanted"))
+_add(_c("m_usn", "USN", [2, 3], [5, 4, 3], 1, "lsn", dict(orthogonal=True), fpol="quad", wall="slanted", mirror=True))
+_add(_c("m_ldn", "LDN", [2, 1, 2], [3, 3, 3, 3, 4, 3], 1, "ldn", dict(orthogonal=True, **DN), fpol="quad"))
+_add(_c("m_udn", "UDN", [2, 1, 2], [3, 3, 3, 3, 4, 3], 1, "ldn", dict(orthogonal=True, **DN), fpol="quad", mirror=True))
+_add(_c("r_base", "LSN", [2, 2], [3, 4, 3], 1, "lsn", dict(orthogonal=True), fpol="quad"))
+_add(_c("r_negpsi", "LSN", [2, 2], [3, 4, 3], 1, "lsn", dict(orthogonal=True), fpol="quad", psi_sign=-1.0))
+_add(_c("r_revcur", "LSN", [2, 2], [3, 4, 3], 1, "lsn", dict(orthogonal=True, reverse_current=True), fpol="quad", psi_sign=-1.0))
+_add(_c("r_revbt", "LSN", [2, 2], [3, 4, 3], 1, "lsn", dict(orthogonal=True, reverse_Bt=True), fpol="quad"))
+_add(_c("r_twopi", "LSN", [2, 2], [3, 4, 3], 1, "lsn", dict(orthogonal=True, psi_divide_twopi=True), fpol="quad", psi_scale=6.283185307179586))
+_add(_c("rn_base", "LSN", [2, 2], [3, 4, 3], 1, "lsn", dict(orthogonal=False), fpol="quad"))
+_add(_c("rn_negpsi", "LSN", [2, 2], [3, 4, 3], 1, "lsn", dict(orthogonal=False), fpol="quad", psi_sign=-1.0))
+# (m_ldn ny is mirrored below: region i of the mirrored double null is the mirror of region 4-i / 10-i)
+CONFIGS["m_udn"]["ny"] = [3, 3, 3, 3, 4, 3][2::-1] + [3, 3, 3, 3, 4, 3][:2:-1]
+C16_PAIRS = [("m_lsn", "m_usn", "mirror"), ("m_ldn", "m_udn", "mirror"), ("cdn_orth", "cdn_orth", "mirror"),
+             ("r_base", "r_negpsi", "negpsi"), ("r_base", "r_revcur", "same"), ("r_base", "r_revbt", "revbt"), ("r_base", "r_twopi", "same"),
+             ("rn_base", "rn_negpsi", "negpsi")]
+
 CORE_CAMPAIGN = ["lsn_orth", "usn_orth", "lsn_orth_rev", "lsn_nonorth", "lsn_nonorth_rev", "cdn_orth", "ldn_orth",
                  "udn_nonorth", "core_orth", "lim_orth", "lsn_orth_x2", "lsn_orth_g2", "lsn_orth_extrap", "udn_orth"]
 
